@@ -211,6 +211,14 @@ impl Variables {
             .sum()
     }
 
+    #[cfg(feature = "verif")]
+    pub fn verif_entries(&self) -> Vec<(String, Variant)> {
+        self.map
+            .entries()
+            .map(|(k, v)| (format!("{}", k), v.value.clone()))
+            .collect()
+    }
+
     pub fn array_names(&self) -> impl Iterator<Item = &Name> {
         self.map
             .entries()
